@@ -1,6 +1,7 @@
 import Driver.Common
 import AslModel.Thread
 import AslModel.ThreadEnd
+import AslModel.ThreadTimed
 /-! Model driver for C13: parallel_for index groups, thread kinds, semaphore ops, and the *acceptor* that
 replays a hook-point trace recorded from the real library on the `Handover` model. -/
 open Driver AslModel.Thread
@@ -115,6 +116,60 @@ def acceptTrace (evs : List String) : String :=
     if c.cpos == CPos.done && c.bad.isNone && (List.range n).all (fun j => c.ran j == 1 && c.finished j) then "accept"
     else "reject: trace ends before the model is done"
 
+
+/-! ### acceptor for the condition-variable log of `condx` (timed waits, time-outs, spurious wake-ups) -/
+namespace CondX
+open AslModel.Thread.SyncT
+
+def act (c : CondT) (a : Act) (what : String) : Except String CondT :=
+  if enabled c a then pure (step c a) else throw s!"model step not enabled at {what}"
+
+def need (b : Bool) (what : String) : Except String Unit := if b then pure () else throw what
+
+def applyEv (c : CondT) (ev : String) : Except String CondT :=
+  if ev == "sL" then do need (c.s == SPc.start) "sL: signaler not at start"; act c Act.signaler ev
+  else if ev == "sP" then do need (c.s == SPc.locked) "sP: signaler does not hold the mutex"; act c Act.signaler ev
+  else if ev == "sB" then do need (c.s == SPc.predSet) "sB: signal before the predicate was set"; act c Act.signaler ev
+  else if ev == "sU" then do need (c.s == SPc.signalled) "sU: unlock before the signal"; act c Act.signaler ev
+  else
+    let kind := ev.toList.headD ' '
+    let rest := (String.ofList (ev.toList.drop 1)).splitOn ":"
+    match (rest.headD "").toNat? with
+    | none => throw ("unknown event " ++ ev)
+    | some i =>
+      if kind == 'L' then do need (c.w i == TPc.start) (ev ++ ": waiter not at start"); act c (Act.waiter i) ev
+      else if kind == 'S' then do
+        need (c.w i == TPc.locked && !c.pred) (ev ++ ": waiter goes to sleep although the predicate is true, or without the mutex")
+        act c (Act.waiter i) ev
+      else if kind == 'P' then do
+        need (c.w i == TPc.locked && c.pred) (ev ++ ": waiter passes although the predicate is false, or without the mutex")
+        act c (Act.waiter i) ev
+      else if kind == 'W' then do
+        let tmo := rest.getD 1 "0" == "1"
+        -- the wake-up is the signal's (already applied by sB), or the environment's: spurious, or a time-out
+        let c ← (if c.w i == TPc.sleeping then act c (Act.wake i tmo) (ev ++ " (wake-up without a signal)")
+                 else if tmo && c.w i == TPc.woken false then act c (Act.wake i true) (ev ++ " (time-out reported after the signal)")
+                 else pure c)
+        need (c.w i == TPc.woken tmo) (ev ++ ": wait returned but the model's waiter is not runnable")
+        act c (Act.waiter i) ev
+      else if kind == 'G' then do
+        need (c.w i == TPc.leaving && c.timedOut i) (ev ++ ": waiter gives up without a time-out of its own timed wait"); pure c
+      else if kind == 'X' then do need (c.w i == TPc.leaving) (ev ++ ": waiter unlocks outside the protocol"); act c (Act.waiter i) ev
+      else throw ("unknown event " ++ ev)
+
+def accept (kinds : String) (evs : List String) : String :=
+  let ks := kinds.toList
+  let n := ks.length
+  let timed := fun i => let k := ks.getD i 'u'; k == 't' || k == 'l'
+  let giveUp := fun i => ks.getD i 'u' == 't'
+  match evs.foldlM applyEv (init n true timed giveUp) with
+  | .error e => "reject: " ++ e
+  | .ok c =>
+    if c.s == SPc.done && (List.range n).all (fun i => c.w i == TPc.done) then
+      "accept out=" ++ String.ofList ((List.range n).map fun i => if c.sawPred i then 'p' else if c.timedOut i then 't' else '?')
+    else "reject: log ends before every thread of the model is done"
+end CondX
+
 def step (_ : Unit) (ts : List String) : Unit × String :=
   let r := match ts with
     | ["seed", _] => "ok"
@@ -130,6 +185,8 @@ def step (_ : Unit) (ts : List String) : Unit × String :=
     | ["semc", p, _, k] => s!"ok got={(p.toNat?.getD 0) * (k.toNat?.getD 0)} value=0"
     | ["cond", _, _] => "ok"
     | ["condt", _, _, _] => "ok"
+    | ["condx", _, _, _] => "ok"
+    | ["ctrace", kinds, evs] => CondX.accept kinds (evs.splitOn ",")
     | ["trace", "-"] => acceptTrace []
     | ["trace", evs] => acceptTrace (evs.splitOn ",")
     | _ => "bad-op"
